@@ -567,6 +567,20 @@ def _check_naming(prog: Program, run: Run, ci, add_item: FuncInfo) -> None:
                 run.violation(R, f"{CLS}.__getattr__", "raises-other",
                               f"`{stmt_key(r)}`: hasattr() only understands AttributeError; any "
                               "other exception breaks the collision test", ga.loc, stmt_key(r))
+        # ... and only for names that are not items: a name that IS in the dictionary is served
+        for r in [x for x in walk_no_nested(ga.node) if isinstance(x, ast.Raise)]:
+            conds = gcfg.branch_conditions(gcfg.node_of(r))
+            absent = any((ast.unparse(t) == f"{key} not in self.{DICT}" and pol) or
+                         (ast.unparse(t) == f"{key} in self.{DICT}" and not pol)
+                         for t, pol in conds)
+            if not absent:
+                good = False
+                run.violation(R, f"{CLS}.__getattr__", "raises-for-item",
+                              f"`{stmt_key(r)}` is not confined to names missing from "
+                              f"{DICT}: an item whose name meets the other condition is in "
+                              "keys()/[] but not reachable as attribute, and hasattr() -- the "
+                              "collision test of _add_attribute_item -- reports its name free",
+                              f"{ga.module.rel}:{r.lineno}", stmt_key(r))
         for r in [x for x in walk_no_nested(ga.node) if isinstance(x, ast.Return)]:
             v = r.value
             is_lookup = isinstance(v, ast.Subscript) and _is_self_attr(v.value, DICT) and \
